@@ -6,7 +6,11 @@ Necessary structural conditions (the conversions' values on every string are not
       order, result Not-ed once); the table binds both with exactly two operands
       and passes operand 0 and operand 1 in that order;
   K2  kind-pair coverage: the outcome of the equality function for each of the 36
-      pairs of JSON kinds (variant specialisation, identity shortcut excluded)
+      pairs of JSON kinds — read off its decision cases with the kinds of both
+      parameters fixed (rules/pairs.py decision_matrix: private helpers inlined,
+      kind tests/accessors answered from the kinds, each case read as a constant,
+      a comparison of the payloads or the recursion with a converted operand;
+      a case that cannot be read is UNDECIDED, never a pass) —
       equals ECMA-262 IsLooselyEqual transcribed in spec/arms/abstract_eq.json —
       same-kind primitives compared directly (numbers as doubles with float Eq,
       strings/booleans by equality), Number×String through the shared
@@ -119,7 +123,7 @@ def negation_of(facts, fneg, fpos):
 
 def run(ctx):
     ctx.explanation = __doc__
-    ctx.rule = "instances = 36 kind pairs × (outcome vs ECMA-262, symmetry) + negation/binding facts + conversion facts; non-trivial = every pair decided by specialisation"
+    ctx.rule = "instances = 36 kind pairs × (outcome vs ECMA-262, symmetry) + negation/binding facts + conversion facts; non-trivial = every pair decided on its decision cases"
     ctx.trusted = ["spec/arms/abstract_eq.json transcribes ECMA-262 7.2.14 for JSON kinds", "serde_json::Number::as_f64", "the string form (to_string) is C16's business", "Rust's f64 parser on decimal literals"]
     spec = json.load(open(os.path.join(VERIF, "spec", "arms", "abstract_eq.json")))["matrix"]
     from . import manifest as _MF
@@ -204,7 +208,9 @@ def run(ctx):
 
 
 def bool_number(ctx, facts, roles, f, cfg):
-    """Every Number::from_f64(c) that turns a boolean operand into a number gets c = 1 on the paths where the boolean is
+    """(Superseded by the reading of the recursion's operands in run(): K2.true-is-one is now decided on the decision
+    cases of each Bool×x pair.  Kept as the worked example of a path-summary rule that README_READERS.md refers to.)
+    Every Number::from_f64(c) that turns a boolean operand into a number gets c = 1 on the paths where the boolean is
     true and c = 0 where it is false — read off the path summaries (rules/pathsum.py), so it does not matter whether the
     choice is two match arms, an `if` feeding one conversion site, or a cast of the boolean."""
     from . import pathsum
